@@ -80,7 +80,11 @@ func findAccSteps(p *Prog) []accStep {
 }
 
 // a2Guard: dominating `x > (MAX - d)/10` (false edge) => x*10 + d <= MAX.
+// a2GuardBlock: the block whose If is the A2 pre-check of st (Succs[0] is the overflow edge), or nil.
+var a2GuardBlock *ssa.BasicBlock
+
 func a2Guard(st accStep, env *rangeEnv) (*big.Int, bool) {
+	a2GuardBlock = nil
 	b := st.add.Block()
 	for cur := b; cur != nil; cur = cur.Idom() {
 		d := cur.Idom()
@@ -119,9 +123,109 @@ func a2Guard(st accStep, env *rangeEnv) (*big.Int, bool) {
 		if dh.Cmp(max) > 0 {
 			continue
 		}
+		a2GuardBlock = d
 		return max, true
 	}
 	return nil, false
+}
+
+// a2Saturates: on the overflow edge of an A2 pre-check the number handed back cannot be mistaken for a small one:
+// every return reached from that edge carries the all-ones maximum of the accumulator's type in the result slot of that
+// type, or every caller uses the number only under a test that the error result is zero.
+func a2Saturates(c *Ctx, st accStep, guard *ssa.BasicBlock) (bool, string) {
+	fn := st.fn
+	_, thi, _ := typeRange(st.res.Type())
+	over := guard.Succs[0]
+	seen := map[*ssa.BasicBlock]bool{}
+	work := []*ssa.BasicBlock{over}
+	nret := 0
+	sat := true
+	for len(work) > 0 {
+		b := work[len(work)-1]
+		work = work[:len(work)-1]
+		if seen[b] || b == guard.Succs[1] {
+			continue
+		}
+		seen[b] = true
+		if ret, ok := b.Instrs[len(b.Instrs)-1].(*ssa.Return); ok {
+			nret++
+			okR := false
+			for _, r := range ret.Results {
+				if types.Identical(r.Type(), st.res.Type()) {
+					if k, ok := r.(*ssa.Const); ok && k.Value != nil {
+						if bi, ok := new(big.Int).SetString(k.Value.ExactString(), 10); ok && bi.Cmp(thi) == 0 {
+							okR = true
+						}
+					}
+				}
+			}
+			if !okR {
+				sat = false
+			}
+			continue
+		}
+		work = append(work, b.Succs...)
+	}
+	if nret > 0 && sat {
+		return true, fmt.Sprintf("the %d return(s) on the overflow edge carry the saturated maximum %s", nret, thi.String())
+	}
+	if nret == 0 {
+		return true, "the overflow edge does not return a number (no return reached)"
+	}
+	// alternative: every caller looks at the number only after testing the error
+	ei := errResultIndex(fn)
+	if ei < 0 {
+		return false, "the overflow edge returns a number that is not the saturated maximum, and the function reports no error"
+	}
+	ncall := 0
+	for _, g := range c.SFuncs {
+		for _, b := range g.Blocks {
+			for _, ins := range b.Instrs {
+				call, ok := ins.(*ssa.Call)
+				if !ok || call.Call.StaticCallee() != fn {
+					continue
+				}
+				ncall++
+				var errv *ssa.Extract
+				for _, r := range *call.Referrers() {
+					if ex, ok := r.(*ssa.Extract); ok && ex.Index == ei {
+						errv = ex
+					}
+				}
+				for _, r := range *call.Referrers() {
+					ex, ok := r.(*ssa.Extract)
+					if !ok || ex.Index == ei || ex.Referrers() == nil {
+						continue
+					}
+					for _, use := range *ex.Referrers() {
+						if _, dbg := use.(*ssa.DebugRef); dbg {
+							continue
+						}
+						guarded := false
+						if errv != nil {
+							for cur := use.Block(); cur != nil; cur = cur.Idom() {
+								d := cur.Idom()
+								if d == nil || len(cur.Preds) != 1 || cur.Preds[0] != d {
+									continue
+								}
+								if iff, ok := d.Instrs[len(d.Instrs)-1].(*ssa.If); ok {
+									if bo, ok := iff.Cond.(*ssa.BinOp); ok && bo.X == ssa.Value(errv) {
+										if k, isC := constIntOf(bo.Y); isC && k == 0 && ((bo.Op == token.EQL && d.Succs[0] == cur) || (bo.Op == token.NEQ && d.Succs[1] == cur)) {
+											guarded = true
+										}
+									}
+								}
+							}
+						}
+						if !guarded {
+							return false, "the overflow edge returns a number that is not the saturated maximum, and " + ssaKey(g) + " uses the number at " + posStr(g, use.Pos()) + " without having tested the error"
+						}
+					}
+				}
+			}
+		}
+	}
+	return ncall > 0, "callers use the number only under err == 0"
 }
 
 // relGuard: a dominating guard bounds the very same ideal expression
@@ -237,6 +341,10 @@ func ruleA(c *Ctx) {
 		}
 		if max, ok := a2Guard(st, env); ok && max.Cmp(thi) <= 0 {
 			c.ok("A", key, st.add.Pos(), "A2 pre-check x > (MAX-d)/10 dominates the step, MAX="+max.String())
+			if g := a2GuardBlock; g != nil {
+				okS, why := a2Saturates(c, st, g)
+				c.check(okS, "A", key+":overflow-value", g.Instrs[len(g.Instrs)-1].Pos(), "a number that does not fit is not handed back as a small one: "+why)
+			}
 			continue
 		}
 		if bound, src, ok := relGuard(st, env); ok && bound.Cmp(thi) <= 0 && bound.Sign() >= 0 {
